@@ -274,3 +274,14 @@ Print Assumptions C01_percentile_cell_is_an_argument_of_the_group.
 Theorem C01_percentile_emit_total : forall vals p e, exists v, acc_emit (APct vals p e) = Ok v.
 Proof. exact pct_emit_ok. Qed.
 Print Assumptions C01_percentile_emit_total.
+
+(** KF-60: "within the sketch's documented rank tolerance" is FALSE of the crate's sketch once it has compressed - of the
+    faithful model, and of the binary on the same input (the witness the check replays) *)
+From AG Require Import Ckms_refuted.
+Theorem C01_percentile_rank_tolerance_refuted :
+  exists vals q r v,
+    length vals = 5000%nat /\ q = kf60_q /\
+    ckms_run ckms_error_f vals q = Some (r, v) /\
+    v = f_of_Z 4951 /\ rank_lo v vals = 4958%Z /\ (rank_lo v vals - 4950 > 5)%Z.
+Proof. exact ckms_rank_tolerance_refuted. Qed.
+Print Assumptions C01_percentile_rank_tolerance_refuted.
